@@ -1,7 +1,9 @@
 ----------------------------- MODULE TraceTables -----------------------------
-(* Spelling tables of a recorded trace: sequences of [name, cps].  This file is the
-   empty default; for every validated trace the checker (tools/props.py trace_tables)
-   generates the module from the union of the events' obs.words and obs.names. *)
+(* Spelling tables of a recorded trace: sequences of [name, cps], and the same in the
+   direction code points -> name as functions keyed by ToString(cps) (TrByCps).  This file
+   is the empty default; for every validated trace the checker (tools/props2.py
+   trace_tables) generates the module from the union of the events' obs.words and obs.names. *)
 TrWords == <<>>
 TrNames == <<>>
+TrByCps == [on |-> FALSE]
 =============================================================================
